@@ -212,4 +212,5 @@ def corpus(tier: str) -> list[dict]:
         items += docexp.corpus(docs.L_EDIT, 3, nmin=3, depth=1)
         items += docexp.corpus(docs.L_EDIT, 2, depth=2)
         items += docexp.corpus(docs.L_EDIT, 2, depth=1, lf=3) + docexp.corpus(docs.L_EDIT, 2, depth=1, lf=2)
+    items += docexp.class_cases(1) + docexp.class_cases(1, lf=3)
     return items
